@@ -9,6 +9,7 @@ package dsmr
 
 import (
 	"context"
+	"errors"
 	"math/rand"
 	"os"
 	"strconv"
@@ -16,6 +17,7 @@ import (
 	"testing"
 	"time"
 
+	"github.com/ava-labs/avalanchego/database"
 	"github.com/ava-labs/avalanchego/ids"
 	"github.com/ava-labs/avalanchego/network/p2p"
 	"github.com/ava-labs/avalanchego/snow/engine/common"
@@ -28,6 +30,49 @@ import (
 )
 
 var vacKinds = []string{"error", "garbage", "junkchunk", "badsig", "nonvalidator", "future", "wrong", "valid"}
+
+// vacFaultDB is the acceptor's chunk database with a transient fault: once armed, its failAt-th Put (the pending
+// record of a fetched chunk is the only Put of Accept) fails once; every other write goes through.
+type vacFaultDB struct {
+	database.Database
+	mu     sync.Mutex
+	armed  bool
+	failAt int
+	puts   int
+	failed int
+}
+
+var errVacFault = errors.New("verif: injected transient write failure")
+
+func (d *vacFaultDB) Put(k, v []byte) error {
+	d.mu.Lock()
+	fail := false
+	if d.armed {
+		d.puts++
+		if d.puts == d.failAt {
+			fail = true
+			d.failed++
+		}
+	}
+	d.mu.Unlock()
+	if fail {
+		return errVacFault
+	}
+	return d.Database.Put(k, v)
+}
+
+func (d *vacFaultDB) arm(failAt int) {
+	d.mu.Lock()
+	defer d.mu.Unlock()
+	d.armed, d.failAt, d.puts, d.failed = failAt > 0, failAt, 0, 0
+}
+
+func (d *vacFaultDB) disarm() int {
+	d.mu.Lock()
+	defer d.mu.Unlock()
+	d.armed = false
+	return d.failed
+}
 
 type vacPeers struct {
 	mu     sync.Mutex
@@ -158,7 +203,13 @@ func TestVerifAcceptRecord(t *testing.T) {
 			limitUnits = 1 + r.Intn(3)
 			net.limit = uint64(limitUnits*unit + unit/2)
 		}
+		var fdb *vacFaultDB
+		net.dbWrap = func(db database.Database) database.Database {
+			fdb = &vacFaultDB{Database: db}
+			return fdb
+		}
 		a := net.newNode(0, peerMap, peers)
+		net.dbWrap = nil
 		log.add(map[string]any{"ev": "reset", "validators": len(net.vals), "win": window, "limit": limitUnits})
 		pickProducer := func() int {
 			if tight && r.Intn(10) < 7 {
@@ -230,8 +281,16 @@ func TestVerifAcceptRecord(t *testing.T) {
 			spin := peers.spin
 			peers.mu.Unlock()
 			blk := vnMakeBlock(t, parent, parent.Height+1, ts, certs)
-			log.add(map[string]any{"ev": "accept_call", "b": vnName("b", b), "ts": ts, "certs": names, "prods": prods, "script": script})
+			// fault sequence: the failput-th store of a fetched chunk on the acceptor fails once (0 = no fault)
+			failput := 0
+			if r.Intn(5) < 2 {
+				failput = 1 + r.Intn(2)
+			}
+			log.add(map[string]any{"ev": "accept_call", "b": vnName("b", b), "ts": ts, "certs": names, "prods": prods, "script": script,
+				"failput": failput})
+			fdb.arm(failput)
 			eb, err, returned := vnAcceptAbort(a.node, blk, watchdog, spin)
+			fdb.disarm()
 			if !returned {
 				// "no hang" is not decided by the clock alone: recorded; the check replays this scenario alone before it
 				// reports.  The abandoned Accept keeps spinning, so no further scenario is recorded in this process.
